@@ -82,10 +82,13 @@ FILTER_TEXT = [j("_filter:" + n) for n in ("LDAPFilter.from_string", "_unpack_fi
 # decoders with value-level postconditions (contracts/decode.py, second half)
 VALUE_DECODERS = [j("_authentication:SimpleCredential.unpack"), j("_authentication:SaslCredential.unpack"), j("_filter:_unpack_filter_attribute_value_assertion")] + \
                  [j("_filter:%s.unpack" % n) for n in ("FilterEquality", "FilterGreaterOrEqual", "FilterLessOrEqual", "FilterApproxMatch", "FilterPresent")] + \
-                 [j("_messages:_unpack_bind_request"), j("_messages:_unpack_search_request")]
+                 [j("_messages:_unpack_%s" % n) for n in ("bind_request", "search_request", "extended_request", "ldap_result", "search_result_done", "bind_response", "extended_response")] + \
+                 [j("specs.ldapmsg:lemma_nth_rest_step"), j("specs.ldapmsg:lemma_rt_extended_request")]
 _VD_NOTE = ("Proved for all octets (value-level postconditions over the X.690 denotation, which accepts every definite length form): both credential choices (SASL credentials present exactly when a UNIVERSAL primitive OCTET STRING follows "
-            "the mechanism - anything else is an ignored trailing element), the four AttributeValueAssertion filter choices and `present`, the leading components of BindRequest (version, name) and SearchRequest "
-            "(baseObject, scope, derefAliases, sizeLimit, timeLimit). ")
+            "the mechanism - anything else is an ignored trailing element), the four AttributeValueAssertion filter choices and `present`, the leading components of BindRequest (version, name), all fixed components of SearchRequest, "
+            "LDAPResult with its optional referral list (URIs = contents of the elements, in order), and the optional context-tagged components of ExtendedRequest / BindResponse / ExtendedResponse as a fold over the element stream "
+            "(the last element with the tag wins, every unrecognised element is skipped: 'unknown trailing elements do not change the result' for all inputs). For ExtendedRequest the composition with the encoder's relation is a proved lemma "
+            "(lemma_rt_extended_request): decoding what the encoder emits gives back name and value. ")
 
 REGISTRY = {
     "C07": {"jobs": LEMMAS_BER + ASN1_FUNCS, "native": "native_c07.py",
